@@ -1188,6 +1188,14 @@ func (cfg *Config) glob(base, pat string) ([]string, error) {
 		if err != nil {
 			return nil, err
 		}
+		if !cfg.DotGlob && !strings.HasPrefix(part, ".") && !strings.HasPrefix(part, `\.`) {
+			// Like bash, a leading dot in a filename must be matched explicitly,
+			// and not by "?", a bracket expression, or a "*" followed by a dot.
+			patMatcher := matcher
+			matcher = func(name string) bool {
+				return !strings.HasPrefix(name, ".") && patMatcher(name)
+			}
+		}
 		var newMatches []string
 		for _, dir := range matches {
 			newMatches, err = cfg.globDir(base, dir, matcher, wantDir, newMatches)
